@@ -217,6 +217,16 @@ func registerEventVocab() {
 		e.evAdd(Event{Op: "mark", Obj: e.strArg(a[0])})
 		return nil
 	}
+	harnessVocab["vStall"] = func(e *Exec, c *frame, fn *ssa.Function, a []Value) Value {
+		// the thread blocks for good: its event path ends here
+		if e.ev == nil {
+			e.abort("pruned", "vStall outside event mode")
+		}
+		e.evAdd(Event{Op: "mark", Obj: "stalled"})
+		e.res.Events = append([]Event{}, e.ev.log...)
+		e.abort("ok", "stalled")
+		return nil
+	}
 	harnessVocab["vEventEnd"] = func(e *Exec, c *frame, fn *ssa.Function, a []Value) Value {
 		if e.ev == nil {
 			return nil
